@@ -254,6 +254,8 @@ def derive_set(x):
             y.pop()
         y.clear()
     return len(ys)
+def ior9(d):
+    d |= {"big%d" % i: 9 for i in range(9)}
 def setkey(d): d["zz"] = 1
 def setkey2(d): d["a"] = 5
 def ior(d):
@@ -312,6 +314,22 @@ func c04Mutators(kind string) []c04Mut {
 				return c04Method(th, v, "update", d)
 			}},
 			{"setdefault(k, v)", func(th *starlark.Thread, _ starlark.StringDict, v starlark.Value) error { return c04Method(th, v, "setdefault", starlark.String("zz"), nine) }},
+			{"update(dict of 9)", func(th *starlark.Thread, _ starlark.StringDict, v starlark.Value) error {
+				// enough entries to make the table grow (a bulk insertion may size the table before it inserts)
+				d := starlark.NewDict(9)
+				for i := 0; i < 9; i++ {
+					d.SetKey(starlark.String(fmt.Sprintf("big%d", i)), nine)
+				}
+				return c04Method(th, v, "update", d)
+			}},
+			{"update(9 pairs)", func(th *starlark.Thread, _ starlark.StringDict, v starlark.Value) error {
+				var ps []starlark.Value
+				for i := 0; i < 9; i++ {
+					ps = append(ps, starlark.Tuple{starlark.String(fmt.Sprintf("big%d", i)), nine})
+				}
+				return c04Method(th, v, "update", starlark.NewList(ps))
+			}},
+			{"d|=dict of 9", call("ior9")},
 			{"d[k]=", call("setkey")},
 			{"d[k]=existing", call("setkey2")},
 			{"d|=", call("ior")},
@@ -327,6 +345,13 @@ func c04Mutators(kind string) []c04Mut {
 			{"pop", func(th *starlark.Thread, _ starlark.StringDict, v starlark.Value) error { return c04Method(th, v, "pop") }},
 			{"remove", func(th *starlark.Thread, _ starlark.StringDict, v starlark.Value) error { return c04Method(th, v, "remove", starlark.MakeInt(0)) }},
 			{"update", func(th *starlark.Thread, _ starlark.StringDict, v starlark.Value) error { return c04Method(th, v, "update", starlark.Tuple{nine}) }},
+			{"update(list of 9)", func(th *starlark.Thread, _ starlark.StringDict, v starlark.Value) error {
+				var xs []starlark.Value
+				for i := 0; i < 9; i++ {
+					xs = append(xs, starlark.MakeInt(100+i))
+				}
+				return c04Method(th, v, "update", starlark.NewList(xs))
+			}},
 			{"update(list, set)", func(th *starlark.Thread, _ starlark.StringDict, v starlark.Value) error {
 				s2 := starlark.NewSet(1)
 				s2.Insert(starlark.MakeInt(8))
